@@ -5,8 +5,13 @@ package scen
 import (
 	"bytes"
 	"crypto/md5"
+	crand "crypto/rand"
+	"crypto/tls"
+	"crypto/x509"
+	"crypto/x509/pkix"
 	"encoding/binary"
 	"encoding/hex"
+	"encoding/pem"
 	"fmt"
 	"math/rand"
 	"net"
@@ -57,9 +62,19 @@ type c17Proc struct {
 	done    chan struct{}
 	exitErr error
 	maxv    string
+	tlsCfg  *tls.Config // != nil: the proxy listens with TLS (--proxy-cert-file / --proxy-key-file)
+}
+
+func (p *c17Proc) dial() (*rawcql.Client, error) {
+	return rawcql.DialTLS(p.addr, primitive.ProtocolVersion4, nil, p.tlsCfg)
 }
 
 func c17Start(c *Ctx, maxv string, tag string) (*c17Proc, error) {
+	return c17StartX(c, maxv, tag, "", nil)
+}
+
+// c17StartX: extra = further command-line flags; tlsCfg = how the harness' clients reach the proxy (nil: plain TCP)
+func c17StartX(c *Ctx, maxv string, tag string, extra string, tlsCfg *tls.Config) (*c17Proc, error) {
 	log := mon.NewLog(false)
 	cluster, err := fakecass.New(fakecass.Config{Hosts: 2, Keyspaces: []string{"ks1"}, Log: log})
 	if err != nil {
@@ -68,7 +83,7 @@ func c17Start(c *Ctx, maxv string, tag string) (*c17Proc, error) {
 	port := freePort()
 	dir := filepath.Join(c.Dir, "out", "logs", "c17")
 	_ = os.MkdirAll(dir, 0o755)
-	p := &c17Proc{addr: fmt.Sprintf("127.0.0.1:%d", port), cluster: cluster, log: log, done: make(chan struct{}), maxv: maxv,
+	p := &c17Proc{addr: fmt.Sprintf("127.0.0.1:%d", port), cluster: cluster, log: log, done: make(chan struct{}), maxv: maxv, tlsCfg: tlsCfg,
 		stderr: filepath.Join(dir, fmt.Sprintf("proxy-%s-s%d-%s-%d.stderr", maxv, c.Shard, tag, time.Now().UnixNano()%1000000))}
 	ef, err := os.Create(p.stderr)
 	if err != nil {
@@ -86,8 +101,8 @@ func c17Start(c *Ctx, maxv string, tag string) (*c17Proc, error) {
 	if strings.HasPrefix(tag, "fd") {
 		fdLimit = "ulimit -n " + strings.TrimPrefix(tag, "fd") + "; "
 	}
-	p.cmd = exec.Command("sh", "-c", fmt.Sprintf(fdLimit+"ulimit -v %d; exec %s --contact-points %s --port %d --bind %s --max-protocol-version %s%s --heartbeat-interval 300ms --idle-timeout 3s --connect-timeout 2s",
-		c17MemLimitKB, bin, cluster.ContactPoint(), cluster.Port, p.addr, maxv, verFlag))
+	p.cmd = exec.Command("sh", "-c", fmt.Sprintf(fdLimit+"ulimit -v %d; exec %s --contact-points %s --port %d --bind %s --max-protocol-version %s%s --heartbeat-interval 300ms --idle-timeout 3s --connect-timeout 2s%s",
+		c17MemLimitKB, bin, cluster.ContactPoint(), cluster.Port, p.addr, maxv, verFlag, extra))
 	p.cmd.Stdout = ef
 	p.cmd.Stderr = ef
 	p.cmd.Env = append(os.Environ(), "GOTRACEBACK=all")
@@ -100,7 +115,7 @@ func c17Start(c *Ctx, maxv string, tag string) (*c17Proc, error) {
 		if !p.alive() {
 			return true
 		}
-		cl, err := rawcql.Dial(p.addr, primitive.ProtocolVersion4, nil)
+		cl, err := p.dial()
 		if err != nil {
 			return false
 		}
@@ -144,7 +159,7 @@ func (p *c17Proc) canary() string {
 			if attempt > 0 {
 				time.Sleep(500 * time.Millisecond) // pools the proxy itself closed reconnect with its default policy (seconds)
 			}
-			cl, err := rawcql.Dial(p.addr, primitive.ProtocolVersion4, nil)
+			cl, err := p.dial()
 			if err != nil {
 				last = "dial: " + err.Error()
 				continue
@@ -845,7 +860,7 @@ func runC17(c *Ctx) {
 	r := c.R
 	r.Assume("declared frame body lengths above 16 MiB are out of scope (resource question); lz4 decoding in dependencies' assembly is not instrumented")
 	r.Assume("a start-up that fails with an error exit because the backend's system tables are unusable is not a crash; a panic / fatal error is")
-	r.Require("client_inputs_sent", "backend_hostilities", "backend_hostile_replies_sent", "control_overrides", "canary_rounds_ok", "repeated_failing_requests_sent")
+	r.Require("client_inputs_sent", "backend_hostilities", "backend_hostile_replies_sent", "control_overrides", "canary_rounds_ok", "repeated_failing_requests_sent", "tls_new_client_served_while_peers_stall", "tls_hostile_cql_inputs_sent")
 	maxvs := []string{"v4", "DSEv2"}
 	if !c.Quick() {
 		maxvs = []string{"v4", "v5", "DSEv1", "DSEv2"} // the harness clients of this check speak v4, so a v3 maximum is left to C13/C20
@@ -990,7 +1005,9 @@ func runC17(c *Ctx) {
 				if p != nil {
 					for _, idLen := range []int{0, 1, 5, 15, 17, 40} {
 						for oi, mk := range []func(tok string) fakecass.Outcome{
-							func(tok string) fakecass.Outcome { return fakecass.Err("Overloaded", &message.Overloaded{ErrorMessage: tok}) },
+							func(tok string) fakecass.Outcome {
+								return fakecass.Err("Overloaded", &message.Overloaded{ErrorMessage: tok})
+							},
 							func(tok string) fakecass.Outcome {
 								return fakecass.Err("WriteTimeout", &message.WriteTimeout{ErrorMessage: tok, Consistency: primitive.ConsistencyLevelOne, BlockFor: 1, WriteType: primitive.WriteTypeBatchLog})
 							},
@@ -1160,6 +1177,11 @@ func runC17(c *Ctx) {
 		job++
 		if c.Mine(job) && mi == 0 {
 			c17RepeatedFailures(c, maxv)
+		}
+		// ------------------------------------------------------------ phase E: the same proxy behind its TLS listener
+		job++
+		if c.Mine(job) && (mi == 0 || !c.Quick()) {
+			c17TLSListener(c, maxv)
 		}
 		// ------------------------------------------------------------ phase C: malformed system tables on the control connection
 		job++
@@ -1401,4 +1423,187 @@ func c17RepeatedFailures(c *Ctx, maxv string) {
 		return
 	}
 	r.Obs("canary_rounds_ok", 1)
+}
+
+// c17TLSListener: the proxy listens with --proxy-cert-file / --proxy-key-file. Hostile peers at the TLS layer - connections that
+// send nothing, a ClientHello cut off after 3 bytes / inside the record / dripped byte by byte, garbage, a plain CQL STARTUP on
+// the TLS port, records claiming 16 KiB that never come, handshakes abandoned half way, and hostile CQL frames inside a
+// completed TLS session - are held open while well-behaved clients (one connected before, fresh ones connecting afterwards)
+// must keep being served: "no byte sequence sent by a client ... stops it serving other clients".
+func c17TLSListener(c *Ctx, maxv string) {
+	r := c.R
+	c.Step("c17 tls listener maxv=%s", maxv)
+	dir := filepath.Join(c.Dir, "out", "logs", "c17")
+	_ = os.MkdirAll(dir, 0o755)
+	now := time.Now()
+	ca := c19MakeCA(pkix.Name{CommonName: "verif C17 listener CA"}, nil, nil, now)
+	key := c19Key()
+	tmpl := &x509.Certificate{SerialNumber: c19Serial(), Subject: pkix.Name{CommonName: "localhost"}, DNSNames: []string{"localhost"},
+		IPAddresses: []net.IP{net.ParseIP("127.0.0.1")}, NotBefore: now.Add(-time.Hour), NotAfter: now.Add(24 * time.Hour),
+		KeyUsage: x509.KeyUsageDigitalSignature, ExtKeyUsage: []x509.ExtKeyUsage{x509.ExtKeyUsageServerAuth}}
+	der, err := x509.CreateCertificate(crand.Reader, tmpl, ca.cert, &key.PublicKey, ca.key)
+	if err != nil {
+		r.Inconc("c17 tls: " + err.Error())
+		return
+	}
+	kder, _ := x509.MarshalECPrivateKey(key)
+	certFile := filepath.Join(dir, fmt.Sprintf("listener-%s-s%d.crt", maxv, c.Shard))
+	keyFile := filepath.Join(dir, fmt.Sprintf("listener-%s-s%d.key", maxv, c.Shard))
+	_ = os.WriteFile(certFile, pem.EncodeToMemory(&pem.Block{Type: "CERTIFICATE", Bytes: der}), 0o600)
+	_ = os.WriteFile(keyFile, pem.EncodeToMemory(&pem.Block{Type: "EC PRIVATE KEY", Bytes: kder}), 0o600)
+	pool := x509.NewCertPool()
+	pool.AddCert(ca.cert)
+	cfg := &tls.Config{RootCAs: pool, ServerName: "localhost"}
+	p, err := c17StartX(c, maxv, "tls", fmt.Sprintf(" --proxy-cert-file %s --proxy-key-file %s", certFile, keyFile), cfg)
+	if err != nil {
+		r.Inconc("c17 tls: " + err.Error())
+		return
+	}
+	defer p.stop()
+	if why := p.canary(); why != "" {
+		r.Inconc("c17 tls: canary fails before the phase: " + why)
+		return
+	}
+	// a well-behaved client that is connected throughout
+	old, err := p.dial()
+	if err != nil || old.Handshake("", 5*time.Second) != nil {
+		r.Inconc("c17 tls: the long-lived client cannot connect")
+		return
+	}
+	defer old.Close()
+	oldOK := func() string {
+		f, err := old.Call(7, &message.Query{Query: "SELECT key FROM system.local", Options: &message.QueryOptions{Consistency: primitive.ConsistencyLevelOne}}, 10*time.Second)
+		if err != nil {
+			return "the client connected before the hostile peers: " + err.Error()
+		}
+		if ri := DecodeReply("", f); ri.Kind != "Rows" {
+			return "the client connected before the hostile peers was answered " + ri.Kind
+		}
+		return ""
+	}
+	// a genuine ClientHello, to be cut off and dripped
+	var hello []byte
+	{
+		a, b := net.Pipe()
+		go func() { _ = tls.Client(a, cfg).Handshake() }()
+		_ = b.SetReadDeadline(time.Now().Add(2 * time.Second))
+		buf := make([]byte, 4096)
+		n, _ := b.Read(buf)
+		hello = append(hello, buf[:n]...)
+		_ = a.Close()
+		_ = b.Close()
+	}
+	if len(hello) < 50 || hello[0] != 0x16 {
+		r.Inconc("c17 tls: could not record a ClientHello")
+		return
+	}
+	rng := c.Rng(4242)
+	type tcase struct {
+		kind string
+		run  func(nc net.Conn)
+	}
+	write := func(b []byte) func(net.Conn) { return func(nc net.Conn) { _, _ = nc.Write(b) } }
+	garbage := make([]byte, 300)
+	rng.Read(garbage)
+	cases := []tcase{
+		{"silent", func(net.Conn) {}},
+		{"hello-first-3-bytes", write(hello[:3])},
+		{"hello-record-header-only", write(hello[:5])},
+		{"hello-cut-inside-record", write(hello[:len(hello)/2])},
+		{"hello-all-but-last-byte", write(hello[:len(hello)-1])},
+		{"hello-dripped", func(nc net.Conn) {
+			for i := 0; i < len(hello)-1; i++ {
+				if _, err := nc.Write(hello[i : i+1]); err != nil {
+					return
+				}
+				time.Sleep(time.Millisecond)
+			}
+		}},
+		{"record-claiming-16KiB", write([]byte{0x16, 0x03, 0x01, 0x40, 0x00, 0x01})},
+		{"garbage", write(garbage)},
+		{"plain-cql-startup", write(encPlain(frame.NewFrame(primitive.ProtocolVersion4, 0, &message.Startup{Options: map[string]string{"CQL_VERSION": "3.0.0"}})))},
+		{"plain-cql-options-v5", write(encPlain(frame.NewFrame(primitive.ProtocolVersion5, 0, &message.Options{})))},
+		{"hello-then-silence", write(hello)}, // the server answers with its flight and waits for ours
+		{"hello-then-garbage", func(nc net.Conn) {
+			_, _ = nc.Write(hello)
+			_ = nc.SetReadDeadline(time.Now().Add(300 * time.Millisecond))
+			_, _ = nc.Read(make([]byte, 8192))
+			_, _ = nc.Write(garbage)
+		}},
+		{"alert-record", write([]byte{0x15, 0x03, 0x03, 0x00, 0x02, 0x02, 0x28})},
+		{"sslv2-style-hello", write([]byte{0x80, 0x2e, 0x01, 0x03, 0x01, 0x00, 0x15, 0x00, 0x00, 0x00, 0x10})},
+	}
+	var held []net.Conn
+	defer func() {
+		for _, nc := range held {
+			_ = nc.Close()
+		}
+	}()
+	rounds := c.Pick(3, 12)
+	var suspects []string
+	for round := 0; round < rounds; round++ {
+		for _, tc := range cases {
+			nc, err := net.DialTimeout("tcp", p.addr, 5*time.Second)
+			if err != nil {
+				continue // judged by the canary
+			}
+			_ = nc.SetWriteDeadline(time.Now().Add(5 * time.Second))
+			tc.run(nc)
+			held = append(held, nc) // stays open: a stalled peer
+			suspects = append(suspects, "tls/"+tc.kind)
+			r.Eval(1)
+			r.NonTrivial("tls/" + maxv + "/" + tc.kind)
+			r.Obs("tls_hostile_peers_held_open", 1)
+			// after every stalled peer: the old client is served, and a NEW client gets through the listener
+			why := oldOK()
+			if why == "" {
+				cl, err := p.dial()
+				if err != nil {
+					why = "a client connecting after the hostile peer: " + err.Error()
+				} else {
+					if err := cl.Options(3, 10*time.Second); err != nil {
+						why = "a client connecting after the hostile peer: OPTIONS: " + err.Error()
+					}
+					cl.Close()
+				}
+			}
+			if why != "" || !p.alive() {
+				if why == "" {
+					why = "process exited"
+				}
+				c17Crash(r, p, "client-input/tls-listener/"+tc.kind, suspects[len(suspects)-1:], why+fmt.Sprintf(" (%d stalled TLS-level peers are connected)", len(held)))
+				return
+			}
+			r.Obs("tls_new_client_served_while_peers_stall", 1)
+		}
+		// hostile CQL frames inside a completed TLS session
+		for _, h := range c17ClientInputs(c.Rng(round+900), maxv, 200, 1<<20) {
+			if len(h.Bytes) > 1<<16 || h.Slow || h.Pre != "" {
+				continue
+			}
+			nc, err := net.DialTimeout("tcp", p.addr, 5*time.Second)
+			if err != nil {
+				break
+			}
+			tc := tls.Client(nc, cfg)
+			_ = tc.SetDeadline(time.Now().Add(10 * time.Second))
+			if tc.Handshake() == nil {
+				_, _ = tc.Write(h.Bytes)
+				_ = tc.SetReadDeadline(time.Now().Add(20 * time.Millisecond))
+				_, _ = tc.Read(make([]byte, 4096))
+				r.Obs("tls_hostile_cql_inputs_sent", 1)
+				r.Eval(1)
+				suspects = append(suspects, "tls-session/"+h.Kind)
+			}
+			_ = nc.Close() // without close_notify
+		}
+		if why := p.canary(); why != "" {
+			if len(suspects) > 20 {
+				suspects = suspects[len(suspects)-20:]
+			}
+			c17Crash(r, p, "client-input/tls-listener", suspects, why)
+			return
+		}
+		r.Obs("canary_rounds_ok", 1)
+	}
 }
